@@ -184,8 +184,8 @@ func Describe(d *pbfgen.FileDesc, data []byte, frames []pbfgen.Frame, skip [3]bo
 				fd.Enc = 1
 				br := bytes.NewReader(z)
 				if r, err := zlib.NewReader(br); err == nil {
-					if p, err := io.ReadAll(r); err == nil {
-						fd.InflOK, fd.InflN = true, int64(len(p))
+					if n, err := io.Copy(io.Discard, r); err == nil { // counted, not kept: may be large
+						fd.InflOK, fd.InflN = true, n
 						fd.InflTrailing = int64(br.Len())
 					}
 				}
